@@ -119,6 +119,15 @@ CHECKS = {
         "outside": "restart points other than after block 3; histories with governance changes or contract state before the restart; more than 2 validators",
         "assumptions": A_COMMON + A_STORE + ["A-SIG", "A-HASH", "A-GOV", "A-EVM (BeginBlock/Commit only)", "restart = new application object built by the real constructors + Info on a copy of the data directory (the application's Stop() leaves stores open)"],
     },
+    "C08": {
+        "quick": [
+            {"name": NODE + "ZZ_C08_K1", "reach": ["K1 end"], "bound": "one block (optional menu transaction): inventory of durable writes via the verif hook"},
+            {"name": NODE + "ZZ_C08_K2", "native_repeat": 0, "reach": ["K2 recovered", "K2 no crash", "K2 replay failed"], "bound": "twin: replica A never crashes; replica C dies immediately before the k-th durable write (k = 1..12, i.e. every write position of Commit and 'no crash') of block 3 (one menu transaction with votes); restart on a copy of the data directory; Info; replay of block 3 when the old height is reported; block 4 with one menu transaction on both"},
+        ],
+        "bounds": "1 interrupted block, all 11 write positions of its Commit, 1 block after recovery",
+        "outside": "torn writes inside one leveldb batch / SaveVersion and fsync semantics (each hooked write is atomic and durable in the model and natively); crashes in two consecutive blocks; the block with the periodic reward-hash record (every 10th height)",
+        "assumptions": A_COMMON + A_STORE + ["A-SIG", "A-HASH", "A-EVM (BeginBlock/Commit only)", "hook: ledger.VerifPoint (build tag verif) is called immediately before each durable write; the crash is a panic raised by the hook that unwinds to the harness, the crashed application object is abandoned and a new one is built by the real constructors on a copy of the directory"],
+    },
     "C09": {
         "quick": [
             {"name": NODE + "ZZ_C09_P1small", "reach": ["P1 end"], "bound": "one hostile transaction (garbage bytes | empty | TrxProto with type 0..9, sender in {known, unknown, 19 bytes}, receiver in {known, 21 bytes, zero}, payload in {absent, garbage, boundary-valued message}, symbolic amount/gas/nonce/time/price, signature in {garbage, genuine}) to DeliverTx or CheckTx; then a well-formed transfer, EndBlock, Commit", "validate": 6},
